@@ -20,7 +20,13 @@ package props
 // evaluates the oracle on every complete execution.
 
 import (
+	"encoding/json"
 	"fmt"
+	"hash/fnv"
+	"os"
+	"path/filepath"
+	"runtime"
+	"strconv"
 	"strings"
 	"testing/synctest"
 
@@ -30,8 +36,8 @@ import (
 )
 
 type fgPoint struct {
-	enabled     []string // "label@site" in canonical order
-	lastEnabled bool     // the goroutine released last is enabled (choosing another one is a preemption)
+	Enabled     []string `json:"en"` // "label@site" in canonical order
+	LastEnabled bool     `json:"le"` // the goroutine released last is enabled (choosing another one is a preemption)
 }
 
 type fgExec struct {
@@ -50,7 +56,7 @@ type fgExec struct {
 func (x *fgExec) preemptionsBefore(i int) int {
 	n := 0
 	for k := 0; k < i; k++ {
-		if x.choices[k] != 0 && x.points[k].lastEnabled {
+		if x.choices[k] != 0 && x.points[k].LastEnabled {
 			n++
 		}
 	}
@@ -86,15 +92,15 @@ func (x *fgExec) drive() {
 			return
 		}
 		i := len(x.choices)
-		pt := fgPoint{lastEnabled: en[0].G == verifsched.LastRun()}
+		pt := fgPoint{LastEnabled: en[0].G == verifsched.LastRun()}
 		for _, p := range en {
-			pt.enabled = append(pt.enabled, p.G+"@"+p.Site)
+			pt.Enabled = append(pt.Enabled, p.G+"@"+p.Site)
 		}
 		ch := 0
 		if i < len(x.prefix) {
 			ch = x.prefix[i]
-			if i < len(x.expect) && strings.Join(x.expect[i].enabled, " ") != strings.Join(pt.enabled, " ") && x.diverged == "" {
-				x.diverged = fmt.Sprintf("decision %d: recorded enabled set [%s], replay sees [%s]", i, strings.Join(x.expect[i].enabled, " "), strings.Join(pt.enabled, " "))
+			if i < len(x.expect) && strings.Join(x.expect[i].Enabled, " ") != strings.Join(pt.Enabled, " ") && x.diverged == "" {
+				x.diverged = fmt.Sprintf("decision %d: recorded enabled set [%s], replay sees [%s]", i, strings.Join(x.expect[i].Enabled, " "), strings.Join(pt.Enabled, " "))
 			}
 			if ch >= len(en) {
 				if x.diverged == "" {
@@ -105,7 +111,7 @@ func (x *fgExec) drive() {
 		}
 		x.points = append(x.points, pt)
 		x.choices = append(x.choices, ch)
-		x.trace = append(x.trace, pt.enabled[ch])
+		x.trace = append(x.trace, pt.Enabled[ch])
 		verifsched.Release(en[ch])
 		if len(x.choices) >= x.maxSteps {
 			x.horizon = true
@@ -119,8 +125,9 @@ type fgScenario struct {
 	name string
 	// run builds a fresh instance, activates the scheduler, drives, deactivates, tears down and
 	// returns the oracle's verdicts (signature -> detail) for this execution.
-	run   func(x *fgExec) map[string]string
-	bound int // preemption bound
+	run     func(x *fgExec) map[string]string
+	bound   int // preemption bound
+	maxExec int // cap on executions per first deviation (0 = tier default)
 }
 
 type fgStats struct {
@@ -134,11 +141,27 @@ func fgRunOnce(sc *fgScenario, prefix []int, expect []fgPoint) (*fgExec, map[str
 	return x, v
 }
 
+// fgWork is one pending node of the search: a schedule prefix to run, and the enabled sets that
+// were recorded when its decisions were first taken.
+type fgWork struct {
+	Prefix []int     `json:"p"`
+	Expect []fgPoint `json:"e"`
+}
+
 // fgExplore runs every schedule of sc with at most sc.bound preemptions, one Case per position of
-// the first deviation from the default schedule.
+// the first deviation from the default schedule. The search keeps an explicit stack of pending
+// prefixes (depth-first order). Every execution builds a fresh instance and the dead ones leave
+// parked goroutines behind, so a long case saves its stack to the scratch directory when the heap
+// has grown and asks to be continued by a fresh worker process.
 func fgExplore(c *core.Ctx, sc *fgScenario) {
 	st := &fgStats{outcomes: map[string]bool{}}
-	var x0 *fgExec
+	maxExec := 150000
+	if c.Thorough() {
+		maxExec = 1500000
+	}
+	if sc.maxExec > 0 {
+		maxExec = sc.maxExec
+	}
 	report := func(x *fgExec, v map[string]string) {
 		st.execs++
 		st.transitions += len(x.choices)
@@ -170,36 +193,79 @@ func fgExplore(c *core.Ctx, sc *fgScenario) {
 		}
 		c.Outcome(sc.name, fmt.Sprint(len(x.choices)), fmt.Sprint(len(v)))
 	}
-	var explore func(prefix []int, expect []fgPoint)
-	explore = func(prefix []int, expect []fgPoint) {
-		if c.Stopping() {
-			return
-		}
-		x, v := fgRunOnce(sc, prefix, expect)
-		report(x, v)
-		if x.diverged != "" {
-			return
-		}
-		for i := len(prefix); i < len(x.points); i++ {
+	// children of an execution: every alternative at every decision behind the prefix that stays within the bound
+	children := func(x *fgExec, from int) []fgWork {
+		var out []fgWork
+		for i := from; i < len(x.points); i++ {
 			p := x.points[i]
-			if len(p.enabled) < 2 {
+			if len(p.Enabled) < 2 {
 				continue
 			}
 			cost := x.preemptionsBefore(i)
-			if p.lastEnabled {
+			if p.LastEnabled {
 				cost++
 			}
 			if cost > sc.bound {
 				continue
 			}
-			for alt := 1; alt < len(p.enabled); alt++ {
-				explore(append(append([]int{}, x.choices[:i]...), alt), x.points[:i+1])
+			for alt := 1; alt < len(p.Enabled); alt++ {
+				out = append(out, fgWork{append(append([]int{}, x.choices[:i]...), alt), append([]fgPoint(nil), x.points[:i+1]...)})
+			}
+		}
+		return out
+	}
+	runStack := func(stack []fgWork, done int) {
+		ranHere := 0
+		ckpt := filepath.Join(os.Getenv("VF_SCRATCH"), fmt.Sprintf("fgwork-%x.json", fnvHash(c.Prop+"|"+c.CaseName()))) // the run's directory, shared by its workers
+		if b, err := os.ReadFile(ckpt); err == nil {
+			var saved struct {
+				Stack []fgWork
+				Done  int
+			}
+			if json.Unmarshal(b, &saved) == nil {
+				stack, done = saved.Stack, saved.Done
+			}
+			os.Remove(ckpt)
+		}
+		for len(stack) > 0 {
+			if c.Expired() {
+				return
+			}
+			if done >= maxExec {
+				c.NotExhaustive(fmt.Sprintf("fine-grain %s: cap of %d executions per first deviation reached", sc.name, maxExec))
+				return
+			}
+			if (fgRecycleEvery > 0 && ranHere >= fgRecycleEvery) || (ranHere > 0 && ranHere%64 == 0 && core.HeapBytes() > fgHeapLimit && liveHeapAbove(fgHeapLimit)) { // continue in a fresh process
+				b, _ := json.Marshal(struct {
+					Stack []fgWork
+					Done  int
+				}{stack, done})
+				if os.WriteFile(ckpt, b, 0600) == nil {
+					if os.Getenv("VF_FG_DEBUG") != "" {
+						fmt.Fprintf(os.Stderr, "FGRECYCLE heap=%dMiB done=%d stack=%d ranHere=%d\n", core.HeapBytes()>>20, done, len(stack), ranHere)
+					}
+					c.Count("fg_recycles", 1)
+					c.RequestRecycle()
+					return
+				}
+			}
+			w := stack[len(stack)-1]
+			stack = stack[:len(stack)-1]
+			x, v := fgRunOnce(sc, w.Prefix, w.Expect)
+			report(x, v)
+			done++
+			ranHere++
+			if x.diverged != "" {
+				continue
+			}
+			ch := children(x, len(w.Prefix))
+			for i := len(ch) - 1; i >= 0; i-- { // reversed: the first child is explored first
+				stack = append(stack, ch[i])
 			}
 		}
 	}
 	// the default schedule (runs in every shard: the case list must be the same everywhere)
-	var v0 map[string]string
-	x0, v0 = fgRunOnce(sc, nil, nil)
+	x0, v0 := fgRunOnce(sc, nil, nil)
 	c.Case(sc.name+"/default", func() { report(x0, v0) })
 	if x0.diverged != "" {
 		return
@@ -207,23 +273,48 @@ func fgExplore(c *core.Ctx, sc *fgScenario) {
 	for i := range x0.points {
 		i := i
 		p := x0.points[i]
-		if len(p.enabled) < 2 {
+		if len(p.Enabled) < 2 {
 			continue
 		}
 		cost := x0.preemptionsBefore(i)
-		if p.lastEnabled {
+		if p.LastEnabled {
 			cost++
 		}
 		if cost > sc.bound {
 			continue
 		}
 		c.Case(fmt.Sprintf("%s/first-deviation@%d", sc.name, i), func() {
-			for alt := 1; alt < len(p.enabled); alt++ {
-				explore(append(append([]int{}, x0.choices[:i]...), alt), x0.points[:i+1])
+			var stack []fgWork
+			for alt := len(p.Enabled) - 1; alt >= 1; alt-- {
+				stack = append(stack, fgWork{append(append([]int{}, x0.choices[:i]...), alt), append([]fgPoint(nil), x0.points[:i+1]...)})
 			}
+			runStack(stack, 0)
 		})
 	}
 	c.Note(fmt.Sprintf("fine-grain %s: preemption bound %d, default schedule has %d decisions", sc.name, sc.bound, len(x0.points)))
+}
+
+// fgHeapLimit: 1.5 GiB unless VF_FG_HEAP_MB says otherwise (used to test the hand-over).
+var fgHeapLimit = func() uint64 {
+	if n, err := strconv.Atoi(os.Getenv("VF_FG_HEAP_MB")); err == nil && n > 0 {
+		return uint64(n) << 20
+	}
+	return 3 << 29
+}()
+
+// fgRecycleEvery (VF_FG_RECYCLE_EVERY) forces a hand-over after that many executions (test aid).
+var fgRecycleEvery, _ = strconv.Atoi(os.Getenv("VF_FG_RECYCLE_EVERY"))
+
+// liveHeapAbove collects garbage first: the heap metric counts unreachable objects too.
+func liveHeapAbove(limit uint64) bool {
+	runtime.GC()
+	return core.HeapBytes() > limit
+}
+
+func fnvHash(s string) uint64 {
+	h := fnv.New64a()
+	h.Write([]byte(s))
+	return h.Sum64()
 }
 
 func trimChoices(ch []int) []int {
